@@ -54,6 +54,7 @@ pub fn order_rules() -> Vec<Rewrite> { vec![
     rw!("merge-join";
         "(hashjoin ?type ?cond ?lkey ?rkey ?left ?right)" =>
         "(mergejoin ?type ?cond ?lkey ?rkey ?left ?right)"
+        if has_merge_join("?type")
         if is_orderby("?lkey", "?left")
         if is_orderby("?rkey", "?right")
     ),
@@ -63,6 +64,19 @@ pub fn order_rules() -> Vec<Rewrite> { vec![
         if is_orderby("?keys", "?child")
     ),
 ]}
+
+/// Returns true if there is a merge join executor for the join type (semi and anti joins have
+/// none).
+fn has_merge_join(ty: &str) -> impl Fn(&mut EGraph, Id, &Subst) -> bool {
+    use Expr::*;
+    let ty = var(ty);
+    move |egraph, _, subst| {
+        matches!(
+            egraph[subst[ty]].nodes[0],
+            Inner | LeftOuter | RightOuter | FullOuter
+        )
+    }
+}
 
 /// Returns true if the plan is ordered by the keys.
 fn is_orderby(keys: &str, plan: &str) -> impl Fn(&mut EGraph, Id, &Subst) -> bool {
